@@ -15,6 +15,7 @@
 (***************************************************************************)
 EXTENDS ScpiLexer, TLC
 M == INSTANCE ScpiMatch
+U == INSTANCE ScpiUnitTable
 
 Slice(b, s, l) == SubSeq(b, s, s + l - 1)
 UpB(s) == [i \in 1..Len(s) |-> IF s[i] \in 97..122 THEN s[i] - 32 ELSE s[i]]
@@ -48,6 +49,9 @@ ChoiceOnOff  == <<[name |-> <<79, 70, 70>>, tag |-> 0], [name |-> <<79, 78>>, ta
 ChoiceTag(choices, mn) ==      \* tag of the first choice whose short/long form spells the mnemonic, or -1
   LET I == {i \in 1..Len(choices) : M!Spells(mn, [name |-> choices[i].name, opt |-> FALSE, num |-> FALSE])[1]} IN
   IF I = {} THEN 0 - 1 ELSE choices[CHOOSE i \in I : \A j \in I : i <= j].tag
+SuffixOf(text) == LET d == LexDecimal(text, 1) IN SubSeq(text, SkipWhile(text, d.next, WS), Len(text))
+KnownUnit(sfx) == \E i \in 1..Len(U!UnitRows) : U!UnitRows[i].name = UpB(sfx)
+IsSpecial(mn) == \E i \in 1..Len(U!SpecialRows) : M!Spells(mn, [name |-> U!SpecialRows[i].pat, opt |-> FALSE, num |-> FALSE])[1]
 ReaderOutcome(kind, tok, text, choices) ==
   IF kind \in {"i32", "u32", "i64", "u64", "flt", "dbl"} THEN
        (IF tok.type \in NumericTypes THEN 0 ELSE IF tok.type = "DECIMAL_SUFFIX" THEN 0 - 138 ELSE 0 - 104)
@@ -57,6 +61,11 @@ ReaderOutcome(kind, tok, text, choices) ==
         ELSE 0 - 104)
   ELSE IF kind = "choice" THEN
        (IF tok.type = "MNEMONIC" THEN (IF ChoiceTag(choices, text) >= 0 THEN 0 ELSE 0 - 224) ELSE 0 - 104)
+  ELSE IF kind = "num" THEN         \* number, number with unit, or special mnemonic
+       (IF tok.type \in NumericTypes THEN 0
+        ELSE IF tok.type = "DECIMAL_SUFFIX" THEN (IF KnownUnit(SuffixOf(text)) THEN 0 ELSE 0 - 131)
+        ELSE IF tok.type = "MNEMONIC" THEN (IF IsSpecial(text) THEN 0 ELSE 0 - 224)
+        ELSE 0 - 104)
   ELSE IF kind = "text"  THEN (IF tok.type \in StringTypes THEN 0 ELSE 0 - 104)
   ELSE IF kind = "block" THEN (IF tok.type = "BLOCK" THEN 0 ELSE 0 - 104)
   ELSE 0      \* "chars": raw access to any item
@@ -81,6 +90,7 @@ Delivered(kind, tok, text, choices) ==
   IF kind = "text" THEN Unquote(text, text[1])
   ELSE IF kind = "chars" THEN (IF tok.type \in StringTypes THEN SubSeq(text, 2, Len(text) - 1) ELSE text)
   ELSE IF kind = "block" THEN text
+  ELSE IF kind = "num" THEN AnyVal
   ELSE IF kind = "choice" THEN DecP(ChoiceTag(choices, text))
   ELSE IF kind = "bool" THEN (IF tok.type = "MNEMONIC" THEN DecP(ChoiceTag(ChoiceOnOff, text))
                              ELSE IF PlainInt(text) THEN (IF IntValue(text) = 0 THEN <<48>> ELSE <<49>>) ELSE AnyVal)
@@ -121,7 +131,7 @@ ItemBytes(kind, v) ==
 (* op = <<"p", kind, mandatory>> | <<"r", kind, value>> | <<"bh", n>> | <<"bd", bytes>> | <<"e", code>> *)
 (* st: cur (next item), items written (seq of byte seqs), cur item under construction (streamed block),*)
 (*     errs, params (log of reader calls), failed                                                     *)
-St0 == [cur |-> 1, items |-> <<>>, open |-> FALSE, obytes |-> <<>>, arb |-> 0, errs |-> <<>>, params |-> <<>>, failed |-> FALSE, stop |-> FALSE, alt |-> FALSE]
+St0 == [cur |-> 1, items |-> <<>>, open |-> FALSE, obytes |-> <<>>, arb |-> 0, errs |-> <<>>, params |-> <<>>, failed |-> FALSE, stop |-> FALSE, alt |-> FALSE, wild |-> FALSE]
 RECURSIVE RunOps(_, _, _, _, _, _)
 RunOps(ops, stopOnFail, msg, toks, choices, st) ==
   IF ops = <<>> \/ st.stop THEN st ELSE
@@ -137,6 +147,10 @@ RunOps(ops, stopOnFail, msg, toks, choices, st) ==
              THEN RunOps(rest, stopOnFail, msg, toks, choices, [st EXCEPT !.items = Append(@, nb), !.open = FALSE, !.obytes = <<>>, !.arb = 0])
              ELSE RunOps(rest, stopOnFail, msg, toks, choices, [st EXCEPT !.obytes = nb, !.arb = left]))
   ELSE IF o[1] = "e" THEN RunOps(rest, stopOnFail, msg, toks, choices, [st EXCEPT !.errs = Append(@, o[2])])
+  ELSE IF o[1] = "x" THEN     \* "apply every API": takes the next item if there is one; what it emits / reports is not specified
+       RunOps(rest, stopOnFail, msg, toks, choices,
+              [st EXCEPT !.cur = IF st.cur > Len(toks) THEN @ ELSE @ + 1, !.wild = @ \/ st.cur <= Len(toks),
+                         !.params = Append(@, [kind |-> "x", ok |-> st.cur <= Len(toks), val |-> AnyVal])])
   ELSE \* parameter read
     IF st.cur > Len(toks) THEN
        (IF o[3] THEN LET s2 == [st EXCEPT !.errs = Append(@, 0 - 109), !.failed = TRUE, !.stop = stopOnFail,
@@ -161,14 +175,14 @@ RunUnit(script, msg, toks, choices) ==
       errs2 == IF ~retOk /\ st.errs = <<>> THEN <<0 - 200>>                                   \* fails without reporting
                ELSE IF st.errs = <<>> /\ st.cur <= Len(toks) THEN <<0 - 108>>                  \* parameters left unread
                ELSE st.errs
-  IN [items |-> st.items, errs |-> errs2, params |-> st.params, alt |-> st.alt,
+  IN [items |-> st.items, errs |-> errs2, params |-> st.params, alt |-> st.alt, wild |-> st.wild,
       partial |-> st.open,      \* a block was announced and not completed: not a result item
       pbytes |-> st.obytes]
 
 -----------------------------------------------------------------------------
 (* One message: unit loop.  acc: log (handler invocations), units (item lists of responding units),  *)
 (* errs, weird (text that is not a well-formed unit was met: the rest is only constrained relationally) *)
-Acc0 == [log |-> <<>>, units |-> <<>>, errs |-> <<>>, weird |-> FALSE, weirdAt |-> 0, alt |-> FALSE, partial |-> FALSE, pbytes |-> <<>>]
+Acc0 == [log |-> <<>>, units |-> <<>>, errs |-> <<>>, weird |-> FALSE, weirdAt |-> 0, alt |-> FALSE, partial |-> FALSE, pbytes |-> <<>>, wild |-> FALSE]
 RECURSIVE RunUnits(_, _, _, _, _, _, _)
 RunUnits(table, scripts, choices, msg, pos, prev, acc) ==
   IF pos > Len(msg) \/ acc.weird THEN acc ELSE
@@ -185,7 +199,7 @@ RunUnits(table, scripts, choices, msg, pos, prev, acc) ==
                                  !.log = Append(@, [tag |-> 0, eff |-> eff, hdr |-> hdr, params |-> <<>>, nitems |-> 0, nerrs |-> 1, pat |-> <<>>])])
        ELSE LET r == RunUnit(scripts[table[k].tag], msg, u.items, choices) IN
             RunUnits(table, scripts, choices, msg, u.next, eff,
-                     [acc EXCEPT !.errs = @ \o r.errs, !.alt = @ \/ r.alt, !.partial = @ \/ r.partial,
+                     [acc EXCEPT !.errs = @ \o r.errs, !.alt = @ \/ r.alt, !.partial = @ \/ r.partial, !.wild = @ \/ r.wild,
                                  !.pbytes = IF r.partial /\ ~acc.partial /\ acc.units = <<>> /\ r.items = <<>> THEN r.pbytes ELSE @,
                                  !.units = IF r.items = <<>> THEN @ ELSE Append(@, r.items),
                                  !.log = Append(@, [tag |-> table[k].tag, eff |-> eff, hdr |-> hdr, params |-> r.params,
@@ -198,7 +212,7 @@ RunMsg(table, scripts, choices, msg) ==
   LET a == RunUnits(PreTable(table), scripts, choices, msg, 1, <<>>, Acc0) IN
   [log |-> a.log, out |-> Framing(a.units), flush |-> IF a.units = <<>> THEN 0 ELSE 1,
    errs |-> a.errs, ret |-> a.errs = <<>>, weird |-> a.weird, weirdAt |-> a.weirdAt, alt |-> a.alt, partial |-> a.partial,
-   nresp |-> Len(a.units),
+   nresp |-> Len(a.units), wild |-> a.wild,
    pbytes |-> a.pbytes]        \* first thing written by the message, if that is an unfinished block: header and data so far
 
 -----------------------------------------------------------------------------
